@@ -1,6 +1,689 @@
-/- C04 — placeholder while the harness is brought up (replaced by the theorems) -/
-import BacVerif.Props.C11
+/-
+  C04 — A confirmed request ends in exactly one outcome, in bounded time, no residue.
+
+  Property text.  "Every confirmed request an application submits - directly
+  or through an I/O control block - is answered to that application exactly
+  once with an acknowledgement, error, reject or abort (an abort being
+  generated locally when the peer stays silent through all retries), within a
+  time bounded by the configured timeouts and retry count, whatever the
+  network loses, duplicates, delays or reorders.  Once the outcome has been
+  delivered the stack holds no transaction, timer or queue entry for it and
+  emits no further packets for it."
+
+  Formalisation.  Model: BacVerif.Model.Tsm (`step : Cfg → Sap → Event → Sap ×
+  List Out`, proved to be the code by lockstep).  The network is adversarial:
+  the theorems quantify over ALL event sequences, and a `frame` event carries
+  any header from any peer — loss (the event does not happen), duplication
+  (twice), delay and reordering (later, in any order) are special cases.
+  k = (peer, invoke ID) names a request; a *generation* of k is the stretch
+  from a `request` event that obtains the key k to the next such event.
+
+  "answered … exactly once" = at most once, always + once under eventual silence
+    one_outcome            a generation of k contains AT MOST ONE `confirm`
+                           for k, whatever happens (any events, unbounded)
+    at_most_one            … as the invariant  confirms(k) + [k listed] ≤ [k listed before]
+    confirm_iff_removed    at the boundary state machines → ASAP (`smapStep`)
+                           a confirmation for k is handed up in a step IFF the
+                           client transaction k leaves the list in that very
+                           step, and then exactly once (equality, every event)
+    confirm_implies_removed  at the boundary ASAP → application (`step`) the
+                           same with "only if": the ASAP adds nothing; it can
+                           drop a ComplexAck whose service has no decoder
+                           (`asap_delivers` says exactly when it passes one on)
+    smap_exact / app_le_smap   the two boundaries over whole runs
+  "once the outcome has been delivered the stack holds no transaction, timer …
+   and emits no further packets for it"
+    no_residue             after a step that confirms k no client transaction
+                           k is listed (timers are fields of listed
+                           transactions: none is armed for it, `timeout_dead`)
+    quiet_after_done       while no client transaction k is listed: a PDU the
+                           demultiplexer routes to the client side for k and an
+                           expiry event for k change nothing and emit nothing
+                           (C11.late_ignored, `timeout_dead`); no event other
+                           than a new request for k confirms k or lists k
+  "within a time bounded by the configured timeouts and retry count"
+    bounded_under_silence  from ANY state satisfying the invariant, while only
+                           timers fire / time passes: rank(k) + (expiries of k's
+                           own timer so far) never exceeds the initial rank;
+                           rank ≤ 2·retries + 1 (`expiry_bound`), so after that
+                           many expiries k is gone (`silence_terminates`) — and
+                           it goes with exactly one locally generated Abort
+                           (`exactly_one_under_silence`)
+    silence_deadline       with a scheduler that never lets a tick pass k's
+                           deadline, k cannot be listed later than
+                           timer + (rank − 1)·T,  T = max(apduTimeout, 4·segmentTimeout)
+    arrival_extends_once   a frame arrival leaves k's timer or re-arms it to at
+                           most now + T and touches no other timer;
+                           `time_bound`: ≤ (2·retries + 1)·T after the last arrival
+  combination
+    exactly_one            a generation that ends in silence long enough:
+                           at most one confirmation in all of it, and if the
+                           transaction is still pending when silence begins,
+                           exactly one (the Abort) — in bounded virtual time.
+
+  Deviation from DESIGN §7 (found while proving): the bound "retries + 1
+  expiries" holds for unsegmented requests and for a request still being
+  transmitted; a SEGMENTED request whose segments were all acknowledged and
+  whose reply never comes survives retries + 2 expiries (the first one restarts
+  the whole request with segmentRetryCount = 0) — example `tight_segmented`.
+  The general bound proved is 2·retries + 1 (robust against device-information
+  changes between retries).
+
+  Hypotheses (explicit, decidable): `cfg.TimeoutsPos`; for the liveness part
+  `noRaise` (no exception left the access point during the silent stretch: with
+  a local maxApduLengthAccepted < 50 or maxSegmentsAccepted = 1 every
+  transmission raises ValueError and `await_confirmation_timeout` skips
+  `self.retryCount = saveCount`, the counter restarts at 0 — no termination).
+
+  IOCB layer: BacVerif.Model.Iocb, section at the end (`complete_once`,
+  `finished_is_final`, `abort_after_done_noop`, `queue_advances`,
+  `queue_never_stuck`, `queue_empty_forgotten`).
+-/
+import BacVerif.Lemmas.TsmC04Silent
 import BacVerif.Model.Iocb
 namespace BacVerif.C04
-theorem placeholder : True := trivial
+open BacVerif.Tsm
+set_option linter.unusedSimpArgs false
+set_option linter.unusedVariables false
+
+variable {cfg : Cfg}
+
+/-! ## runs -/
+
+theorem run_nil (s : Sap) : run cfg s [] = (s, []) := rfl
+theorem run_cons_fst (s : Sap) (e : Event) (es : List Event) :
+    (run cfg s (e :: es)).1 = (run cfg (step cfg s e).1 es).1 := rfl
+theorem run_cons_snd (s : Sap) (e : Event) (es : List Event) :
+    (run cfg s (e :: es)).2 = (step cfg s e).2 ++ (run cfg (step cfg s e).1 es).2 := rfl
+
+/-- the key a `request` event obtains (none for other events) -/
+def reqKeyOf (s : Sap) : Event → Option Key
+  | .request p _ _ ch => some (requestKey s p ch)
+  | _ => none
+
+/-- no event of the sequence is a request that obtains the key `k` -/
+def noReqFor (cfg : Cfg) (k : Key) : Sap → List Event → Bool
+  | _, [] => true
+  | s, e :: es => (reqKeyOf s e != some k) && noReqFor cfg k (step cfg s e).1 es
+
+theorem hreq_of {s : Sap} {e : Event} {k : Key} (h : (reqKeyOf s e != some k) = true) :
+    ∀ p svc d ch, e = .request p svc d ch → requestKey s p ch ≠ k := by
+  intro p svc d ch he hk
+  subst he
+  simp [reqKeyOf, hk] at h
+
+/-! ## at most one outcome -/
+
+/-- **at_most_one.**  Over ANY event sequence without a new request for `k`:
+    confirmations for `k` delivered to the application + [k still listed]
+    ≤ [k listed at the start].  In particular at most one confirmation, and
+    none once it has been delivered or if nothing was pending. -/
+theorem at_most_one (hpos : cfg.TimeoutsPos) (k : Key) : ∀ (es : List Event) {s : Sap}, Inv s →
+    noReqFor cfg k s es = true →
+    nConfFor k (run cfg s es).2 + liveC (run cfg s es).1 k ≤ liveC s k := by
+  intro es
+  induction es with
+  | nil => intro s _ _; simp [run_nil]
+  | cons e es ih =>
+    intro s hinv hno
+    simp only [noReqFor, Bool.and_eq_true] at hno
+    have h1 := conf_step hpos hinv e k (hreq_of hno.1)
+    have h2 := ih (C11.inv_step hpos hinv e) hno.2
+    rw [run_cons_fst, run_cons_snd, nConfFor_append]
+    omega
+
+/-- **one_outcome.**  A generation of `k`: the `request` event that obtains
+    (or is refused) the key `k`, followed by ANY events that are not a new
+    request for `k` — at most one confirmation for `k` reaches the application. -/
+theorem one_outcome (hpos : cfg.TimeoutsPos) {s : Sap} (hinv : Inv s) (peer : Peer) (service : Nat)
+    (data : Bytes) (chosen : Option Nat) (k : Key) (es : List Event)
+    (hno : noReqFor cfg k (step cfg s (.request peer service data chosen)).1 es = true) :
+    nConfFor k (run cfg s (.request peer service data chosen :: es)).2 ≤ 1 := by
+  have h1 := request_conf_step hpos hinv peer service data chosen k
+  have h2 := at_most_one hpos k es (C11.inv_step hpos hinv _) hno
+  rw [run_cons_snd, nConfFor_append]
+  omega
+
+/-- **confirm_iff_removed** (boundary state machines → ASAP, every event that
+    is not a new request for `k`): `sap_response` is called for `k` in a step
+    iff the client transaction `k` is listed before and not after that step —
+    and never twice. -/
+theorem confirm_iff_removed (hpos : cfg.TimeoutsPos) {s : Sap} (hinv : Inv s) (e : Event) (k : Key)
+    (hreq : (reqKeyOf s e != some k) = true) :
+    (nConfFor k (smapStep cfg s e).2 = 1 ↔ (liveC s k = 1 ∧ liveC (smapStep cfg s e).1 k = 0)) ∧
+    nConfFor k (smapStep cfg s e).2 ≤ 1 := by
+  have h := smap_conf_step hpos hinv e k (hreq_of hreq)
+  have h1 := liveC_le_one s k
+  have h2 := liveC_le_one (smapStep cfg s e).1 k
+  constructor
+  · constructor
+    · intro hc; omega
+    · intro ⟨ha, hb⟩; omega
+  · omega
+
+/-- … and for a `request` event that obtains `k`: it is answered at once
+    (local abort: too long / segmentation not possible) or listed, not both -/
+theorem request_confirm_or_listed (hpos : cfg.TimeoutsPos) {s : Sap} (hinv : Inv s) (peer : Peer)
+    (service : Nat) (data : Bytes) (chosen : Option Nat) (k : Key) :
+    nConfFor k (step cfg s (.request peer service data chosen)).2 +
+      liveC (step cfg s (.request peer service data chosen)).1 k ≤ 1 :=
+  request_conf_step hpos hinv peer service data chosen k
+
+/-- **confirm_implies_removed** (boundary ASAP → application): a confirmation
+    for `k` reaches the application only in the step in which the client
+    transaction `k` leaves the list, and only once. -/
+theorem confirm_implies_removed (hpos : cfg.TimeoutsPos) {s : Sap} (hinv : Inv s) (e : Event) (k : Key)
+    (hreq : (reqKeyOf s e != some k) = true) (hc : 1 ≤ nConfFor k (step cfg s e).2) :
+    nConfFor k (step cfg s e).2 = 1 ∧ liveC s k = 1 ∧ liveC (step cfg s e).1 k = 0 := by
+  have h := conf_step hpos hinv e k (hreq_of hreq)
+  have h1 := liveC_le_one s k
+  omega
+
+/-- what the ASAP does with one confirmation: types SimpleAck / Reject / Abort
+    pass; an Error passes (decoded, or replaced by a bare `Error`); a
+    ComplexAck passes decoded or replaced — unless its service has no decoder,
+    then it is dropped.  Exactly one upward call in the first cases, state untouched. -/
+def Delivers (cfg : Cfg) (a : Apdu) : Bool :=
+  a.ty = 2 || a.ty = 6 || a.ty = 7 || a.ty = 5 ||
+  (a.ty = 3 && cfg.ackDecode a.service a.data != .unknown)
+
+def Out.isOutcome : Out → Bool
+  | .confirm _ _ => true
+  | .confirmAnon _ _ => true
+  | _ => false
+
+theorem asap_delivers (s : Sap) (p : Peer) (a : Apdu) :
+    (asapUp cfg s (.confirm p a)).1 = s ∧
+    ((asapUp cfg s (.confirm p a)).2.countP Out.isOutcome = if Delivers cfg a then 1 else 0) := by
+  refine ⟨asapUp_noInd s rfl, ?_⟩
+  unfold asapUp Delivers
+  dsimp only
+  by_cases h2 : a.ty = 2
+  · simp [h2, Out.isOutcome]
+  by_cases h6 : a.ty = 6
+  · simp [h6, Out.isOutcome]
+  by_cases h7 : a.ty = 7
+  · simp [h7, Out.isOutcome]
+  by_cases h3 : a.ty = 3
+  · simp only [h3]
+    cases hd : cfg.ackDecode a.service a.data <;> simp [hd, Out.isOutcome]
+  by_cases h5 : a.ty = 5
+  · simp only [h5]
+    by_cases he : cfg.errDecode a.service a.data = true <;> simp [he, Out.isOutcome]
+  · simp [h2, h6, h7, h3, h5]
+
+/-- confirmations the state machines hand to the ASAP for `k` during a run -/
+def smapConfs (cfg : Cfg) (k : Key) : Sap → List Event → Nat
+  | _, [] => 0
+  | s, e :: es => nConfFor k (smapStep cfg s e).2 + smapConfs cfg k (step cfg s e).1 es
+
+/-- **smap_exact.**  Over any run without a new request for `k`, the state
+    machines confirm `k` exactly when (and as often as) it leaves the list:
+    confirmations + [still listed] = [listed at the start]. -/
+theorem smap_exact (hpos : cfg.TimeoutsPos) (k : Key) : ∀ (es : List Event) {s : Sap}, Inv s →
+    noReqFor cfg k s es = true →
+    smapConfs cfg k s es + liveC (run cfg s es).1 k = liveC s k := by
+  intro es
+  induction es with
+  | nil => intro s _ _; simp [smapConfs, run_nil]
+  | cons e es ih =>
+    intro s hinv hno
+    simp only [noReqFor, Bool.and_eq_true] at hno
+    have h1 := smap_conf_step hpos hinv e k (hreq_of hno.1)
+    have h2 := ih (C11.inv_step hpos hinv e) hno.2
+    have h3 : liveC (step cfg s e).1 k = liveC (smapStep cfg s e).1 k :=
+      liveC_congr (asapPass_clients _ _) k
+    simp only [smapConfs]
+    rw [run_cons_fst]
+    omega
+
+/-- the application never sees more confirmations for `k` than the state machines produced -/
+theorem app_le_smap (k : Key) : ∀ (es : List Event) (s : Sap),
+    nConfFor k (run cfg s es).2 ≤ smapConfs cfg k s es := by
+  intro es
+  induction es with
+  | nil => intro s; simp [smapConfs, run_nil]
+  | cons e es ih =>
+    intro s
+    have h1 := asapPass_confFor (cfg := cfg) k (smapStep cfg s e).2 (smapStep cfg s e).1
+    have h2 := ih (step cfg s e).1
+    simp only [smapConfs]
+    rw [run_cons_snd, nConfFor_append]
+    rw [step_eq] at h2 ⊢
+    omega
+
+/-! ## no residue, quiet afterwards -/
+
+/-- **no_residue.**  After ANY step that delivers a confirmation for `k` no
+    client transaction with key `k` is listed.  (A transaction's timer is a
+    field of the listed transaction: with the transaction the timer is gone —
+    `timeout_dead`.) -/
+theorem no_residue (hpos : cfg.TimeoutsPos) {s : Sap} (hinv : Inv s) (e : Event) (k : Key)
+    (hc : 1 ≤ nConfFor k (step cfg s e).2) :
+    ∀ t ∈ (step cfg s e).1.clients, t.key ≠ k := by
+  apply findTxn_none.1
+  apply liveC_zero.1
+  by_cases hreq : (reqKeyOf s e != some k) = true
+  · exact (confirm_implies_removed hpos hinv e k hreq hc).2.2
+  · cases e with
+    | request peer service data chosen =>
+      have := request_conf_step hpos hinv peer service data chosen k
+      omega
+    | unconfirmed _ _ _ => simp [reqKeyOf] at hreq
+    | response _ _ => simp [reqKeyOf] at hreq
+    | frame _ _ => simp [reqKeyOf] at hreq
+    | timeout _ _ _ => simp [reqKeyOf] at hreq
+    | tick _ => simp [reqKeyOf] at hreq
+    | learn _ _ => simp [reqKeyOf] at hreq
+    | setDcc _ => simp [reqKeyOf] at hreq
+
+/-- an expiry event for a key without client transaction: nothing happens -/
+theorem timeout_dead {s : Sap} (k : Key) (h : ∀ t ∈ s.clients, t.key ≠ k) :
+    step cfg s (.timeout false k.peer k.id) = (s, []) := by
+  have hf := findTxn_none.2 h
+  rw [C11.step_timeout]
+  simp [smapTimeout, hf, asapPass]
+
+/-- **quiet_after_done** (one step).  While no client transaction `k` is
+    listed, an event that is not a new request for `k` delivers no confirmation
+    for `k` and lists no transaction `k`. -/
+theorem quiet_step (hpos : cfg.TimeoutsPos) {s : Sap} (hinv : Inv s) (e : Event) (k : Key)
+    (hreq : (reqKeyOf s e != some k) = true) (hdead : ∀ t ∈ s.clients, t.key ≠ k) :
+    nConfFor k (step cfg s e).2 = 0 ∧ ∀ t ∈ (step cfg s e).1.clients, t.key ≠ k := by
+  have h := conf_step hpos hinv e k (hreq_of hreq)
+  have h0 : liveC s k = 0 := liveC_zero.2 (findTxn_none.2 hdead)
+  refine ⟨by omega, findTxn_none.1 (liveC_zero.1 (by omega))⟩
+
+/-- **quiet_after_done.**  … and over any event sequence: after the outcome
+    (or before any request) nothing is confirmed for `k` and nothing is listed
+    for `k` until the application submits a new request that obtains `k`.
+    PDUs the demultiplexer routes to the client side for `k` meanwhile are
+    ignored altogether (`C11.late_ignored`: state unchanged, no output), as
+    are expiry events for `k` (`timeout_dead`). -/
+theorem quiet_after_done (hpos : cfg.TimeoutsPos) (k : Key) (es : List Event) {s : Sap} (hinv : Inv s)
+    (hno : noReqFor cfg k s es = true) (hdead : ∀ t ∈ s.clients, t.key ≠ k) :
+    nConfFor k (run cfg s es).2 = 0 ∧ ∀ t ∈ (run cfg s es).1.clients, t.key ≠ k := by
+  have h := at_most_one hpos k es hinv hno
+  have h0 : liveC s k = 0 := liveC_zero.2 (findTxn_none.2 hdead)
+  refine ⟨by omega, findTxn_none.1 (liveC_zero.1 (by omega))⟩
+
+/-- a late reply / segment ack / abort for `k` on the client side: ignored -/
+theorem late_frame_ignored {s : Sap} (k : Key) (a : Apdu) (hid : a.invokeId = k.id)
+    (hside : C11.clientSide a = true) (hdead : ∀ t ∈ s.clients, t.key ≠ k) :
+    step cfg s (.frame k.peer a) = (s, []) :=
+  C11.late_ignored k.peer a (Or.inl ⟨hside, by rw [hid]; exact hdead⟩)
+
+/-! ## bounded under silence -/
+
+/-- rank of the client transaction `k` (0 when none is listed) -/
+def mu (cfg : Cfg) (s : Sap) (k : Key) : Nat :=
+  match findTxn k s.clients with
+  | none => 0
+  | some t => rank cfg t.body
+
+/-- expiries of k's own timer that really fire during the run -/
+def dueCount (cfg : Cfg) (k : Key) : Sap → List Event → Nat
+  | _, [] => 0
+  | s, e :: es => (if isDue s k e then 1 else 0) + dueCount cfg k (step cfg s e).1 es
+
+/-- no exception left the access point -/
+def noRaise (outs : List Out) : Bool := !(outs.any Out.isRaised)
+
+theorem noRaise_append {l1 l2 : List Out} (h : noRaise (l1 ++ l2) = true) :
+    noRaise l1 = true ∧ noRaise l2 = true := by
+  simp only [noRaise, List.any_append, Bool.not_or, Bool.and_eq_true] at h ⊢
+  exact h
+
+theorem noRaise_mem {outs : List Out} (h : noRaise outs = true) (r : Raise) : Out.raised r ∉ outs := by
+  intro hm
+  simp only [noRaise, Bool.not_eq_true', List.any_eq_false] at h
+  exact absurd rfl (h _ hm)
+
+theorem mu_le (cfg : Cfg) (s : Sap) (k : Key) : mu cfg s k ≤ 2 * cfg.retries + 1 := by
+  unfold mu
+  split
+  · omega
+  · exact rank_le _ _
+
+theorem mu_zero {s : Sap} {k : Key} : mu cfg s k = 0 ↔ findTxn k s.clients = none := by
+  unfold mu
+  cases h : findTxn k s.clients with
+  | none => simp
+  | some t =>
+    have := rank_pos cfg t.body
+    simp
+    omega
+
+/-- **one silent event.**  The rank of `k` drops by at least one with every
+    expiry of its own timer that fires, and never rises otherwise. -/
+theorem silent_step_mu (hpos : cfg.TimeoutsPos) {s : Sap} (hinv : Inv s) {e : Event}
+    (he : Silent e = true) (k : Key) (hnr : noRaise (step cfg s e).2 = true) :
+    mu cfg (step cfg s e).1 k + (if isDue s k e then 1 else 0) ≤ mu cfg s k := by
+  rcases (silent_step_cases hpos hinv he k).2 with ⟨hd, hf⟩ | ⟨hd, t, d, hf, _, _, hcase⟩
+  · simp only [mu, hf, hd]
+    simp
+  · rcases hcase with ⟨hnone, _⟩ | ⟨b', hsome, _, hlt | ⟨r, hr⟩⟩
+    · have := rank_pos cfg t.body
+      simp only [mu, hnone, hf, hd, if_true]
+      omega
+    · simp only [mu, hsome, hf, hd, if_true]
+      omega
+    · exact absurd hr (noRaise_mem hnr r)
+
+/-- **bounded_under_silence.**  From ANY state satisfying the invariant, over
+    ANY sequence of timer expiries and clock ticks (no exception escaping):
+    (rank of k afterwards) + (number of expiries of k's own timer that fired)
+    ≤ (rank of k at the start). -/
+theorem bounded_under_silence (hpos : cfg.TimeoutsPos) (k : Key) : ∀ (es : List Event) {s : Sap}, Inv s →
+    (∀ e ∈ es, Silent e = true) → noRaise (run cfg s es).2 = true →
+    mu cfg (run cfg s es).1 k + dueCount cfg k s es ≤ mu cfg s k := by
+  intro es
+  induction es with
+  | nil => intro s _ _ _; simp [dueCount, run_nil]
+  | cons e es ih =>
+    intro s hinv hsil hnr
+    rw [run_cons_snd] at hnr
+    obtain ⟨hn1, hn2⟩ := noRaise_append hnr
+    have h1 := silent_step_mu hpos hinv (hsil e (List.mem_cons_self)) k hn1
+    have h2 := ih (C11.inv_step hpos hinv e) (fun x hx => hsil x (List.mem_cons_of_mem _ hx)) hn2
+    simp only [dueCount]
+    rw [run_cons_fst]
+    omega
+
+/-- **expiry_bound.**  Under silence a client transaction sees at most
+    2·retries + 1 expiries of its own timer. -/
+theorem expiry_bound (hpos : cfg.TimeoutsPos) (k : Key) (es : List Event) {s : Sap} (hinv : Inv s)
+    (hsil : ∀ e ∈ es, Silent e = true) (hnr : noRaise (run cfg s es).2 = true) :
+    dueCount cfg k s es ≤ 2 * cfg.retries + 1 := by
+  have h := bounded_under_silence hpos k es hinv hsil hnr
+  have := mu_le cfg s k
+  omega
+
+/-- **silence_terminates.**  Once as many expiries of its own timer have fired
+    as its rank at the start of the silence says, the transaction is no longer listed. -/
+theorem silence_terminates (hpos : cfg.TimeoutsPos) (k : Key) (es : List Event) {s : Sap} (hinv : Inv s)
+    (hsil : ∀ e ∈ es, Silent e = true) (hnr : noRaise (run cfg s es).2 = true)
+    (hdue : mu cfg s k ≤ dueCount cfg k s es) :
+    ∀ t ∈ (run cfg s es).1.clients, t.key ≠ k := by
+  have h := bounded_under_silence hpos k es hinv hsil hnr
+  exact findTxn_none.1 ((mu_zero (cfg := cfg)).1 (by omega))
+
+/-- a silent event confirms `k` exactly when it removes it (the locally
+    generated Abort always passes the ASAP) -/
+theorem silent_conf_exact (hpos : cfg.TimeoutsPos) {s : Sap} (hinv : Inv s) {e : Event}
+    (he : Silent e = true) (k : Key) :
+    nConfFor k (step cfg s e).2 + liveC (step cfg s e).1 k = liveC s k := by
+  have hreq : (reqKeyOf s e != some k) = true := by
+    cases e <;> simp [Silent] at he <;> simp [reqKeyOf]
+  have hle := conf_step hpos hinv e k (hreq_of hreq)
+  rcases (silent_step_cases hpos hinv he k).2 with ⟨_, hf⟩ | ⟨_, t, d, hf, _, _, hcase⟩
+  · have : liveC (step cfg s e).1 k = liveC s k := by unfold liveC; rw [hf]
+    have := liveC_le_one s k
+    omega
+  · have h1 : liveC s k = 1 := liveC_one.2 ⟨t, hf⟩
+    rcases hcase with ⟨hnone, reason, hout⟩ | ⟨b', hsome, _, _⟩
+    · have h0 : liveC (step cfg s e).1 k = 0 := liveC_zero.2 hnone
+      rw [hout, h0, h1]
+      simp [nConfFor, List.countP_cons, Out.isConfFor]
+    · have h2 : liveC (step cfg s e).1 k = 1 := liveC_one.2 ⟨_, hsome⟩
+      omega
+
+/-- **exactly_one_under_silence.**  Over a silent stretch:
+    confirmations for k + [k listed afterwards] = [k listed before] — a pending
+    transaction that disappears during silence was answered exactly once. -/
+theorem exactly_one_under_silence (hpos : cfg.TimeoutsPos) (k : Key) : ∀ (es : List Event) {s : Sap},
+    Inv s → (∀ e ∈ es, Silent e = true) →
+    nConfFor k (run cfg s es).2 + liveC (run cfg s es).1 k = liveC s k := by
+  intro es
+  induction es with
+  | nil => intro s _ _; simp [run_nil]
+  | cons e es ih =>
+    intro s hinv hsil
+    have h1 := silent_conf_exact hpos hinv (hsil e (List.mem_cons_self)) k
+    have h2 := ih (C11.inv_step hpos hinv e) (fun x hx => hsil x (List.mem_cons_of_mem _ hx))
+    rw [run_cons_fst, run_cons_snd, nConfFor_append]
+    omega
+
+/-! ## virtual time -/
+
+/-- the instant by which `k` must be gone if nothing arrives: its armed
+    deadline plus one maximal timeout for every further expiry its rank allows -/
+def deadline (cfg : Cfg) (s : Sap) (k : Key) : Nat :=
+  match findTxn k s.clients with
+  | none => 0
+  | some t => t.body.timer.getD 0 + (rank cfg t.body - 1) * (maxT cfg * 1000)
+
+/-- the scheduler is prompt for `k`: a clock tick never passes k's armed deadline -/
+def prompt (k : Key) (s : Sap) : Event → Bool
+  | .tick dt =>
+    match findTxn k s.clients with
+    | some t =>
+      match t.body.timer with
+      | some d => decide (s.now + dt ≤ d)
+      | none => true
+    | none => true
+  | _ => true
+
+def promptRun (cfg : Cfg) (k : Key) : Sap → List Event → Bool
+  | _, [] => true
+  | s, e :: es => prompt k s e && promptRun cfg k (step cfg s e).1 es
+
+/-- k's timer is not overdue -/
+def NotOverdue (s : Sap) (k : Key) : Prop :=
+  ∀ t, findTxn k s.clients = some t → ∃ d, t.body.timer = some d ∧ s.now ≤ d
+
+theorem silent_step_deadline (hpos : cfg.TimeoutsPos) {s : Sap} (hinv : Inv s) {e : Event}
+    (he : Silent e = true) (k : Key) (hnr : noRaise (step cfg s e).2 = true)
+    (hp : prompt k s e = true) (hno : NotOverdue s k) :
+    NotOverdue (step cfg s e).1 k ∧
+    ((findTxn k (step cfg s e).1.clients).isSome → deadline cfg (step cfg s e).1 k ≤ deadline cfg s k) := by
+  obtain ⟨hnow, hcases⟩ := silent_step_cases hpos hinv he k
+  rcases hcases with ⟨hd, hf⟩ | ⟨hd, t, d, hf, ht, hdle, hcase⟩
+  · constructor
+    · intro t' ht'
+      rw [hf] at ht'
+      obtain ⟨d, hd1, hd2⟩ := hno t' ht'
+      refine ⟨d, hd1, ?_⟩
+      rw [hnow]
+      cases e with
+      | tick dt =>
+        simp only [prompt, ht', hd1, decide_eq_true_eq] at hp
+        exact hp
+      | timeout _ _ _ => simpa [elapsed] using hd2
+      | request _ _ _ _ => simp [Silent] at he
+      | unconfirmed _ _ _ => simp [Silent] at he
+      | response _ _ => simp [Silent] at he
+      | frame _ _ => simp [Silent] at he
+      | learn _ _ => simp [Silent] at he
+      | setDcc _ => simp [Silent] at he
+    · intro _
+      simp only [deadline, hf]
+      exact Nat.le_refl _
+  · obtain ⟨d0, hd0, hle0⟩ := hno t hf
+    rw [ht] at hd0
+    cases hd0
+    have hnow' : (step cfg s e).1.now = s.now := by
+      rw [hnow]
+      cases e <;> simp [isDue] at hd <;> rfl
+    rcases hcase with ⟨hnone, _⟩ | ⟨b', hsome, ⟨d', hd', hlo, hhi⟩, hlt | ⟨r, hr⟩⟩
+    · constructor
+      · intro t' ht'; rw [hnone] at ht'; cases ht'
+      · intro h; rw [hnone] at h; cases h
+    · constructor
+      · intro t' ht'
+        rw [hsome] at ht'
+        cases ht'
+        exact ⟨d', hd', by rw [hnow']; exact hlo⟩
+      · intro _
+        simp only [deadline, hsome, hf, hd', ht, Option.getD_some]
+        have hb := rank_pos cfg b'
+        -- d' + (rank b' - 1)·T ≤ now + T + (rank b' - 1)·T = now + rank b'·T ≤ d + (rank t - 1)·T
+        have hmul : (rank cfg b' - 1) * (maxT cfg * 1000) + maxT cfg * 1000
+            ≤ (rank cfg t.body - 1) * (maxT cfg * 1000) := by
+          have : rank cfg b' - 1 + 1 ≤ rank cfg t.body - 1 := by omega
+          calc (rank cfg b' - 1) * (maxT cfg * 1000) + maxT cfg * 1000
+              = (rank cfg b' - 1 + 1) * (maxT cfg * 1000) := by rw [Nat.add_mul, Nat.one_mul]
+            _ ≤ (rank cfg t.body - 1) * (maxT cfg * 1000) := Nat.mul_le_mul_right _ this
+        omega
+    · exact absurd hr (noRaise_mem hnr r)
+
+/-- **silence_deadline.**  Silence, a prompt scheduler, no exception: as long
+    as `k` is listed the clock has not passed the deadline computed at the
+    start of the silence. -/
+theorem silence_deadline (hpos : cfg.TimeoutsPos) (k : Key) : ∀ (es : List Event) {s : Sap}, Inv s →
+    (∀ e ∈ es, Silent e = true) → noRaise (run cfg s es).2 = true → promptRun cfg k s es = true →
+    NotOverdue s k → (findTxn k (run cfg s es).1.clients).isSome →
+    (run cfg s es).1.now ≤ deadline cfg s k := by
+  intro es
+  induction es with
+  | nil =>
+    intro s _ _ _ _ hno hl
+    rw [run_nil] at hl ⊢
+    cases hf : findTxn k s.clients with
+    | none => rw [hf] at hl; cases hl
+    | some t =>
+      obtain ⟨d, hd, hle⟩ := hno t hf
+      simp only [deadline, hf, hd, Option.getD_some]
+      omega
+  | cons e es ih =>
+    intro s hinv hsil hnr hpr hno hl
+    rw [run_cons_snd] at hnr
+    obtain ⟨hn1, hn2⟩ := noRaise_append hnr
+    simp only [promptRun, Bool.and_eq_true] at hpr
+    have hstep := silent_step_deadline hpos hinv (hsil e (List.mem_cons_self)) k hn1 hpr.1 hno
+    rw [run_cons_fst] at hl ⊢
+    have h2 := ih (C11.inv_step hpos hinv e) (fun x hx => hsil x (List.mem_cons_of_mem _ hx)) hn2 hpr.2
+      hstep.1 hl
+    -- k is listed at the end, so it was listed after the first step (nothing re-lists it in silence)
+    have hmid : (findTxn k (step cfg s e).1.clients).isSome := by
+      cases hm : findTxn k (step cfg s e).1.clients with
+      | some _ => rfl
+      | none =>
+        have hz := exactly_one_under_silence hpos k es (C11.inv_step hpos hinv e)
+          (fun x hx => hsil x (List.mem_cons_of_mem _ hx))
+        have h0 : liveC (step cfg s e).1 k = 0 := liveC_zero.2 hm
+        have h1 : liveC (run cfg (step cfg s e).1 es).1 k = 1 := by
+          unfold liveC; simp [hl]
+        omega
+    exact Nat.le_trans h2 (hstep.2 hmid)
+
+/-- the deadline is at most 2·retries maximal timeouts behind the armed timer -/
+theorem deadline_le (cfg : Cfg) (s : Sap) (k : Key) {t : Txn} {d : Nat}
+    (hf : findTxn k s.clients = some t) (hd : t.body.timer = some d) :
+    deadline cfg s k ≤ d + 2 * cfg.retries * (maxT cfg * 1000) := by
+  simp only [deadline, hf, hd, Option.getD_some]
+  have := rank_le cfg t.body
+  have : rank cfg t.body - 1 ≤ 2 * cfg.retries := by omega
+  have := Nat.mul_le_mul_right (maxT cfg * 1000) this
+  omega
+
+/-- **arrival_extends_once.**  A frame arrival (ANY header from ANY peer),
+    with k = (peer, invoke ID of the frame): the timer of the client
+    transaction `k` — if it survives — is what it was or is re-armed to at most
+    now + T, T = max(apduTimeout, 4·segmentTimeout); every other transaction,
+    its timer included, is untouched (C11.demux_frame). -/
+theorem arrival_extends_once (hpos : cfg.TimeoutsPos) {s : Sap} (hinv : Inv s) (peer : Peer) (a : Apdu) :
+    (∀ t t', findTxn ⟨peer, a.invokeId⟩ s.clients = some t →
+        findTxn ⟨peer, a.invokeId⟩ (step cfg s (.frame peer a)).1.clients = some t' →
+        t'.body.timer = t.body.timer ∨ ArmedAt cfg s.now t'.body.timer) ∧
+    SameExcept ⟨peer, a.invokeId⟩ s.clients (step cfg s (.frame peer a)).1.clients ∧
+    SameExcept ⟨peer, a.invokeId⟩ s.servers (step cfg s (.frame peer a)).1.servers := by
+  have hd := C11.demux_frame (cfg := cfg) hpos hinv peer a
+  dsimp only at hd
+  refine ⟨?_, hd.1, hd.2.1⟩
+  intro t t' hf hf'
+  by_cases hc : C11.clientSide a = true
+  · -- routed to the client table
+    have hcl : (step cfg s (.frame peer a)).1.clients = (smapConfirmation cfg s peer a).1.clients := by
+      rw [C11.step_frame, asapPass_clients]
+    rw [hcl, C11.smapConfirmation_clientSide hc] at hf'
+    split at hf'
+    · rw [hf] at hf'; cases hf'; exact Or.inl rfl
+    · unfold toClient at hf'
+      rw [hf] at hf'
+      simp only [Sap.setClient] at hf'
+      cases hr : clientConfirmation cfg s.now t.key t.body a with
+      | mk rb ro =>
+        rw [hr] at hf'
+        cases rb with
+        | none =>
+          rw [findTxn_updFirst_none hinv.cKeys] at hf'; cases hf'
+        | some b' =>
+          rw [findTxn_updFirst_some b' hf] at hf'
+          cases hf'
+          exact clientConfirmation_timer hpos hr
+  · -- not routed to the client table: the client list is unchanged
+    have hsame : (step cfg s (.frame peer a)).1.clients = s.clients := by
+      by_cases hs : C11.serverSide a = true
+      · exact hd.2.2.2.2.1 hs
+      · exact (hd.2.2.2.2.2.1 (by simpa using hc) (by simpa using hs)).1
+    rw [hsame, hf] at hf'
+    cases hf'
+    exact Or.inl rfl
+
+/-- **time_bound.**  If the timer of `k` is armed at most T ahead (as it is
+    right after a request, an arrival or an expiry) and then nothing arrives,
+    the scheduler being prompt: `k` cannot be listed later than
+    (2·retries + 1)·T after that instant. -/
+theorem time_bound (hpos : cfg.TimeoutsPos) (k : Key) (es : List Event) {s : Sap} (hinv : Inv s)
+    {t : Txn} (hf : findTxn k s.clients = some t) (harm : ArmedAt cfg s.now t.body.timer)
+    (hsil : ∀ e ∈ es, Silent e = true) (hnr : noRaise (run cfg s es).2 = true)
+    (hpr : promptRun cfg k s es = true)
+    (hl : (findTxn k (run cfg s es).1.clients).isSome) :
+    (run cfg s es).1.now ≤ s.now + (2 * cfg.retries + 1) * (maxT cfg * 1000) := by
+  obtain ⟨d, hd, hlo, hhi⟩ := harm
+  have hno : NotOverdue s k := by
+    intro t' ht'
+    rw [hf] at ht'; cases ht'
+    exact ⟨d, hd, hlo⟩
+  have h1 := silence_deadline hpos k es hinv hsil hnr hpr hno hl
+  have h2 := deadline_le cfg s k hf hd
+  have : (2 * cfg.retries + 1) * (maxT cfg * 1000)
+      = 2 * cfg.retries * (maxT cfg * 1000) + maxT cfg * 1000 := by
+    rw [Nat.add_mul, Nat.one_mul]
+  omega
+
+/-! ## exactly one, under eventual silence -/
+
+/-- **exactly_one.**  A generation of `k`: the request event, then ANY events
+    `mid` (not a new request for `k`) — the adversarial network —, then a
+    silent stretch `sil` in which k's timer fires as often as its rank at the
+    beginning of the silence says (at most 2·retries + 1 times).  Then
+      * at most one confirmation for `k` reached the application in all of it,
+      * `k` is not listed at the end, nor any timer for it,
+      * if `k` was still pending when the silence began, exactly one
+        confirmation reached the application, during the silence;
+      * the state machines handed up exactly one confirmation (or `k` was
+        never listed: refused or answered at once by the request step). -/
+theorem exactly_one (hpos : cfg.TimeoutsPos) {s : Sap} (hinv : Inv s) (peer : Peer) (service : Nat)
+    (data : Bytes) (chosen : Option Nat) (k : Key) (mid sil : List Event)
+    (hno : noReqFor cfg k (step cfg s (.request peer service data chosen)).1 mid = true)
+    (hsil : ∀ e ∈ sil, Silent e = true) :
+    let s1 := (step cfg s (.request peer service data chosen)).1
+    let s2 := (run cfg s1 mid).1
+    let s3 := (run cfg s2 sil).1
+    noRaise (run cfg s2 sil).2 = true → mu cfg s2 k ≤ dueCount cfg k s2 sil →
+      nConfFor k ((step cfg s (.request peer service data chosen)).2 ++ (run cfg s1 mid).2 ++
+        (run cfg s2 sil).2) ≤ 1 ∧
+      (∀ t ∈ s3.clients, t.key ≠ k) ∧
+      (liveC s2 k = 1 → nConfFor k (run cfg s2 sil).2 = 1) ∧
+      smapConfs cfg k s1 mid + nConfFor k (run cfg s2 sil).2 = liveC s1 k := by
+  intro s1 s2 s3 hnr hdue
+  have hinv1 : Inv s1 := C11.inv_step hpos hinv _
+  have hinv2 : Inv s2 := C11.inv_run hpos mid hinv1
+  have hreq : nConfFor k (step cfg s (.request peer service data chosen)).2 + liveC s1 k ≤ 1 :=
+    request_conf_step hpos hinv peer service data chosen k
+  have hmid : nConfFor k (run cfg s1 mid).2 + liveC s2 k ≤ liveC s1 k := at_most_one hpos k mid hinv1 hno
+  have hsx : nConfFor k (run cfg s2 sil).2 + liveC s3 k = liveC s2 k :=
+    exactly_one_under_silence hpos k sil hinv2 hsil
+  have hterm : ∀ t ∈ s3.clients, t.key ≠ k := silence_terminates hpos k sil hinv2 hsil hnr hdue
+  have h3 : liveC s3 k = 0 := liveC_zero.2 (findTxn_none.2 hterm)
+  have hsm : smapConfs cfg k s1 mid + liveC s2 k = liveC s1 k := smap_exact hpos k mid hinv1 hno
+  refine ⟨?_, hterm, ?_, ?_⟩
+  · rw [nConfFor_append, nConfFor_append]
+    have := liveC_le_one s2 k
+    omega
+  · intro h; omega
+  · omega
+
 end BacVerif.C04
